@@ -175,8 +175,13 @@ theorem outs_format (outs : List Arg) (h : ∀ x ∈ outs, argOKB x = true) : Ou
 /-- one command line as the formatter writes it -/
 def cmdLine (c : List Rune) : List Rune := [asc SP, asc SP, asc SP, asc SP] ++ c ++ [asc NL]
 
-theorem cmdSep_indent : CmdSep [asc NL, asc SP, asc SP, asc SP, asc SP] :=
-  ⟨[], [asc SP, asc SP, asc SP, asc SP], by intro r hr; cases hr, ws_of_all (by decide), rfl⟩
+theorem cmdSep_indent : CmdSep [asc NL, asc SP, asc SP, asc SP, asc SP] := by
+  unfold CmdSep
+  exact ⟨[], [asc SP, asc SP, asc SP, asc SP], (fun r hr => by cases hr), ws_of_all (by decide), rfl⟩
+
+theorem cmdSep_nl : CmdSep [asc NL] := by
+  unfold CmdSep
+  exact ⟨[], [], (fun r hr => by cases hr), ws_nil, rfl⟩
 
 theorem moreCmds_format : ∀ (cs : List (List Rune)) (prev : List Rune), (∀ c ∈ cs, nextCmdOKB c = true) →
     MoreCmds cs prev (asc NL :: (cs.map cmdLine).flatten) := by
@@ -184,7 +189,7 @@ theorem moreCmds_format : ∀ (cs : List (List Rune)) (prev : List Rune), (∀ c
   induction cs with
   | nil =>
     intro prev _
-    exact MoreCmds.done prev [asc NL] (Or.inl ⟨[], [], by intro r hr; cases hr, ws_nil, rfl⟩)
+    exact MoreCmds.done prev [asc NL] (Or.inl cmdSep_nl)
   | cons c cs ih =>
     intro prev h
     have := MoreCmds.cons prev _ c cs _ cmdSep_indent (nextCmdOK_of (h c (by simp)))
@@ -272,18 +277,12 @@ theorem printNode_starts (node : Node) (h : nodeOKB node = true) (rest : List Ru
     | nil => exact absurd rfl hne
     | cons a n =>
       have ha : isIdent a = true := hid a (by simp)
-      exact Or.inr ⟨a, _, by simp [printNode], isSpace_of_isIdent ha, Or.inl ha⟩
+      exact Or.inr ⟨a, _, rfl, isSpace_of_isIdent ha, Or.inl ha⟩
   | task name doc deps outs cmds =>
     cases doc with
     | nil =>
-      refine Or.inr ⟨asc 116, ?_, ?_, by decide, Or.inl (by decide)⟩
-      · exact [asc 97, asc 115, asc 107, asc SP] ++ (name ++ stdLits.lparen ++ joinR stdLits.sep (deps.map (printArg stdLits)) ++
-          stdLits.rparen ++ (match outs with
-            | [] => []
-            | [o] => stdLits.arrow ++ printArg stdLits o
-            | os => stdLits.arrow ++ stdLits.lparen ++ joinR stdLits.sep (os.map (printArg stdLits)) ++ stdLits.rparen) ++
-          stdLits.bodyOpen ++ (cmds.map fun c => stdLits.indent ++ c ++ stdLits.nl).flatten ++ stdLits.bodyClose ++ rest)
-      · simp [printNode, printComment_nil, lit_taskKw, List.append_assoc]
+      simp only [printNode, printComment_nil, lit_taskKw, List.append_assoc, List.nil_append, List.cons_append]
+      exact Or.inr ⟨_, _, rfl, by decide, Or.inl (by decide)⟩
     | cons a doc =>
       simp only [printNode, printComment_cons, List.cons_append]
       exact startsStmt_hash _
@@ -357,5 +356,161 @@ theorem adj_identAssign (node : Node) (t : Tree) (h : adjOKB (node :: t) = true)
     simp only [adjOKB, Bool.and_eq_true, Bool.not_eq_true'] at h
     rw [h.1.2] at hi; cases hi
 
+/-! ## assignments -/
+
+theorem stmt_assignStr (n s rest : List Rune) (hn : n ≠ []) (hi : IdentRunes n) (hk : kwPrefix n = false) (hs : StrOK s) :
+    StmtText (.assign n (.str s)) (printNode stdLits (.assign n (.str s))) rest := by
+  have := StmtText.assignStr n [asc SP] [asc SP] s [] [asc NL] rest hn hi hk (ws_of_all (by decide))
+    (ws_of_all (by decide)) hs (fun r hr => by cases hr) (Or.inl (Or.inl rfl))
+  simpa [printNode, printVal, lit_assignOp, lit_quote, lit_nl, List.append_assoc] using this
+
+/-- `NAME := f(args)` without the line end -/
+def callTxt (n f : List Rune) (args : List Arg) : List Rune :=
+  n ++ [asc SP] ++ asc COLON :: asc EQUALS :: [asc SP] ++ f ++ [] ++ parenTxt args
+
+theorem printNode_call (n f : List Rune) (args : List Arg) :
+    printNode stdLits (.assign n (.call f args)) = callTxt n f args ++ [asc NL] := by
+  simp [printNode, printVal, callTxt, parenTxt, lit_assignOp, lit_lparen, lit_rparen, lit_sep, lit_nl, List.append_assoc]
+
+theorem stmt_assignCall (n f : List Rune) (args : List Arg) (rest : List Rune) (hn : n ≠ []) (hi : IdentRunes n)
+    (hk : kwPrefix n = false) (hf : f ≠ []) (hfi : IdentRunes f) (ha : ∀ x ∈ args, argOKB x = true)
+    (hrest : NextStmtOK rest) :
+    StmtText (.assign n (.call f args)) (callTxt n f args) rest :=
+  StmtText.assignCall n [asc SP] [asc SP] f [] args (parenTxt args) rest hn hi hk (ws_of_all (by decide))
+    (ws_of_all (by decide)) hf hfi ws_nil (paren_format args ha) hrest
+
+theorem stmt_assignIdent (n v : List Rune) (hn : n ≠ []) (hi : IdentRunes n) (hk : kwPrefix n = false)
+    (hv : v ≠ []) (hvi : IdentRunes v) :
+    StmtText (.assign n (.ident v)) (printNode stdLits (.assign n (.ident v))) [] := by
+  have := StmtText.assignIdent n [asc SP] [asc SP] v [asc NL] hn hi hk (ws_of_all (by decide))
+    (ws_of_all (by decide)) hv hvi (ws_of_all (by decide))
+  simpa [printNode, printVal, lit_assignOp, lit_nl, List.append_assoc] using this
+
+/-! ## tasks -/
+
+/-- a task as the formatter writes it, up to and including the closing brace -/
+def taskTxt (name doc : List Rune) (deps outs : List Arg) (cmds : List (List Rune)) : List Rune :=
+  printComment stdLits doc ++ asc 116 :: asc 97 :: asc 115 :: asc 107 :: [asc SP] ++ name ++ [] ++ parenTxt deps ++
+    outsTxt outs ++ asc LBRACE :: (asc NL :: (cmds.map cmdLine).flatten) ++ [asc RBRACE]
+
+theorem cmdLines_eq (cmds : List (List Rune)) :
+    (cmds.map fun c => stdLits.indent ++ c ++ stdLits.nl) = cmds.map cmdLine := by
+  apply List.map_congr_left
+  intro c _
+  simp [cmdLine, lit_indent, lit_nl]
+
+theorem printNode_task (name doc : List Rune) (deps outs : List Arg) (cmds : List (List Rune)) :
+    printNode stdLits (.task name doc deps outs cmds) = taskTxt name doc deps outs cmds ++ [asc NL, asc NL] := by
+  simp only [printNode]
+  rw [cmdLines_eq]
+  match outs with
+  | [] =>
+    simp [taskTxt, outsTxt, parenTxt, lit_taskKw, lit_lparen, lit_rparen, lit_sep, lit_bodyOpen,
+      lit_bodyClose, List.append_assoc]
+  | [o] =>
+    simp [taskTxt, outsTxt, parenTxt, lit_taskKw, lit_lparen, lit_rparen, lit_sep, lit_bodyOpen,
+      lit_bodyClose, lit_arrow, List.append_assoc]
+  | a :: b :: os =>
+    simp [taskTxt, outsTxt, parenTxt, lit_taskKw, lit_lparen, lit_rparen, lit_sep, lit_bodyOpen,
+      lit_bodyClose, lit_arrow, List.append_assoc]
+
+theorem stmt_task (name doc : List Rune) (deps outs : List Arg) (cmds : List (List Rune)) (rest : List Rune)
+    (hname : IdentRunes name) (hdoc : CommentOK doc) (hd : ∀ x ∈ deps, argOKB x = true)
+    (ho : ∀ x ∈ outs, argOKB x = true) (hcm : cmdsOKB cmds = true)
+    (hrest : ∀ r, rest.head? = some r → r.cp ≠ RBRACE ∧ r.cp ≠ LBRACE) :
+    StmtText (.task name (normComment doc) deps outs cmds) (taskTxt name doc deps outs cmds) rest := by
+  cases doc with
+  | nil =>
+    exact StmtText.task [] [] [] [] [asc SP] name [] deps (parenTxt deps) outs (outsTxt outs) cmds _ rest
+      (Or.inl ⟨rfl, rfl⟩) (ws_of_all (by decide)) hname ws_nil (paren_format deps hd) (outs_format outs ho)
+      (body_format cmds hcm) hrest
+  | cons a c =>
+    have := StmtText.task (asc SP :: trimSpace (a :: c)) (asc HASH :: (asc SP :: trimSpace (a :: c)) ++ [asc NL] ++ [])
+      [asc NL] [] [asc SP] name [] deps (parenTxt deps) outs (outsTxt outs) cmds _ rest
+      (Or.inr ⟨by simp, commentOK_respell hdoc, Or.inl rfl, (by intro h; rw [endsCR_respell] at h; cases h), ws_nil, rfl⟩)
+      (ws_of_all (by decide)) hname ws_nil (paren_format deps hd) (outs_format outs ho)
+      (body_format cmds hcm) hrest
+    have e : normComment (a :: c) = asc SP :: trimSpace (a :: c) := rfl
+    rw [e]
+    simpa [taskTxt, printComment_cons, List.append_assoc] using this
+
+/-! ## the whole file -/
+
+theorem doc_format : ∀ (t : Tree), (∀ n ∈ t, nodeOKB n = true) → adjOKB t = true → Doc (norm t) (format t)
+  | [] => fun _ _ => Doc.nil [] ws_nil
+  | node :: t => by
+    intro hok hadj
+    have hok' : ∀ n ∈ t, nodeOKB n = true := fun n hn => hok n (by simp [hn])
+    have ih := doc_format t hok' (adj_tail node t hadj)
+    have hadj' := adj_norm node t hadj
+    have hnode := hok node (by simp)
+    rw [format_cons]
+    show Doc (normNode node :: norm t) _
+    cases node with
+    | comment c =>
+      have := Doc.cons [] _ _ _ (format t) ws_nil (stmt_comment c (format t) hnode) ih hadj'
+      simpa [normNode] using this
+    | assign n v =>
+      simp only [nodeOKB, Bool.and_eq_true] at hnode
+      obtain ⟨⟨⟨hn, hi⟩, hk0⟩, hv⟩ := hnode
+      have hk : kwPrefix n = false := by simpa using hk0
+      have hn' := ne_nil_of_isEmpty hn
+      have hi' := identRunes_of hi
+      cases v with
+      | str s =>
+        have := Doc.cons [] _ _ _ (format t) ws_nil
+          (stmt_assignStr n s (format t) hn' hi' hk (strOK_of hv)) ih hadj'
+        simpa [normNode] using this
+      | ident w =>
+        have ht : t = [] := adj_identAssign _ t hadj rfl
+        subst ht
+        simp only [valOKB, Bool.and_eq_true] at hv
+        have := Doc.cons [] _ _ _ [] ws_nil
+          (stmt_assignIdent n w hn' hi' hk (ne_nil_of_isEmpty hv.1) (identRunes_of hv.2)) (Doc.nil [] ws_nil) hadj'
+        simpa [format, printTree, normNode, norm] using this
+      | call f args =>
+        simp only [valOKB, Bool.and_eq_true, List.all_eq_true] at hv
+        have hrest : NextStmtOK (asc NL :: format t) := nextStmtOK_nl (format_starts t hok')
+        have := Doc.cons [] _ _ _ (asc NL :: format t) ws_nil
+          (stmt_assignCall n f args _ hn' hi' hk (ne_nil_of_isEmpty hv.1.1) (identRunes_of hv.1.2) hv.2 hrest)
+          (doc_ws ih [asc NL] (ws_of_all (by decide))) hadj'
+        simpa [printNode_call, normNode, List.append_assoc] using this
+    | task name doc deps outs cmds =>
+      simp only [nodeOKB, Bool.and_eq_true, List.all_eq_true] at hnode
+      obtain ⟨⟨⟨⟨hname, hdoc⟩, hd⟩, ho⟩, hcm⟩ := hnode
+      have := Doc.cons [] _ _ _ (asc NL :: asc NL :: format t) ws_nil
+        (stmt_task name doc deps outs cmds _ (identRunes_of hname) (commentOK_of hdoc) hd ho hcm
+          (by intro r hr; cases hr; exact ⟨by decide, by decide⟩))
+        (doc_ws ih [asc NL, asc NL] (ws_of_all (by decide))) hadj'
+      simpa [printNode_task, normNode, List.append_assoc] using this
+
 end Fmt
+
+/-- the formatter's output is an admissible layout of the normalised tree -/
+theorem renders_format : ∀ t, wfTree t = true → Doc (norm t) (format t) := by
+  intro t h
+  simp only [wfTree, Bool.and_eq_true, List.all_eq_true] at h
+  exact Fmt.doc_format t h.1 h.2
+
+/-! ## non-vacuity: a tree with every kind of statement satisfies `wfTree` -/
+namespace Fmt
+
+theorem ex_scan : cmdScanOK [asc 111, asc SP, asc 120] = true := by
+  simp [cmdScanOK, asc, isASCII]
+
+/-- `#  h ⏎ # ⏎ y := f("o", x) ⏎ # d ⏎ task b(x) -> "o" { go x ⏎ o x } ⏎ z := x` -/
+def exTree : Tree :=
+  [.comment [asc SP, asc 104, asc SP], .comment [],
+   .assign [asc 121] (.call [asc 102] [.str [asc 111], .ident [asc 120]]),
+   .task [asc 98] [asc 100] [.ident [asc 120]] [.str [asc 111]] [[asc 103, asc 111, asc SP, asc 120], [asc 111, asc SP, asc 120]],
+   .assign [asc 122] (.ident [asc 120])]
+
+theorem exTree_wf : wfTree exTree = true := by
+  simp only [exTree, wfTree, List.all_cons, List.all_nil, nodeOKB, cmdsOKB, firstCmdOKB, nextCmdOKB, ex_scan]
+  decide
+
+example : Doc (norm exTree) (format exTree) := renders_format exTree exTree_wf
+
+end Fmt
+
 end Spok
